@@ -153,7 +153,7 @@ def check_ftp(ctx, case):
 
 
 def part_ftp(ctx):
-    n = 120 if ctx.tier == "quick" else 2500
+    n = 300 if ctx.tier == "quick" else 2500
     hyp_run(ctx, CASE, lambda c: check_ftp(ctx, c), n, name="ftp")
 
 
@@ -242,7 +242,7 @@ def check_api(ctx, ops, real_threads=False):
 
 
 def part_api(ctx):
-    n = 300 if ctx.tier == "quick" else 6000
+    n = 900 if ctx.tier == "quick" else 6000
     hyp_run(ctx, OPS, lambda c: check_api(ctx, c), n, name="api")
     if ctx.tier == "thorough":
         hyp_run(ctx, OPS, lambda c: check_api(ctx, c, real_threads=True), 400, name="api_threads")
